@@ -24,28 +24,31 @@ Proof. exact C03.rename_before_sync_unsafe. Qed.
 Print Assumptions C03_files_rename_before_sync_refuted.
 
 (* ---- the packed store ---- *)
-(* the source regenerated today deletes the index rows before it touches the pack, and its pack walk checks the file size *)
-Theorem C03_source_order : dp_remove_commits_index_first = true /\ dp_walk_checks_file_size = true.
-Proof. split; reflexivity. Qed.
+(* the source regenerated today deletes the index rows before it touches the pack, rewrites a removed record's header
+   before it destroys its data, and its pack walk checks the file size *)
+Theorem C03_source_order : dp_remove_commits_index_first = true /\ dp_walk_checks_file_size = true /\
+  dp_delete_header_before_punch = true /\ dp_delete_header_before_zero = true.
+Proof. repeat split; reflexivity. Qed.
 Print Assumptions C03_source_order.
 
 (* Whatever receives, removals, crashes inside a receive (torn header, torn body, data without index row) or inside a
    removal (index row gone, header rewritten, body zeroed up to any byte) and restarts happened, no fetch presents a blob
    with wrong bytes. *)
-Theorem C03_fetch_never_corrupt : forall os r, dfetch (druns true dp0 os) r <> FCorrupt.
+Theorem C03_fetch_never_corrupt : forall os r, C03.ops_ok os = true -> dfetch (druns true dp0 os) r <> FCorrupt.
 Proof. exact C03.fetch_never_corrupt. Qed.
 Print Assumptions C03_fetch_never_corrupt.
 
 (* an acknowledged receive makes the blob fetchable intact, and it stays so across every later operation, crash and
    restart that is not a removal of that blob *)
-Theorem C03_acked_stays_intact : (forall os r size, dfetch (receive (druns true dp0 os) r size) r = FIntact) /\
-  (forall os o r, C03.touches o r = false -> dfetch (druns true dp0 os) r = FIntact -> dfetch (dstep true (druns true dp0 os) o) r = FIntact).
+Theorem C03_acked_stays_intact : (forall os r size, C03.ops_ok os = true -> dfetch (receive (druns true dp0 os) r size) r = FIntact) /\
+  (forall os o r, C03.ops_ok os = true -> C03.touches o r = false -> dfetch (druns true dp0 os) r = FIntact -> dfetch (dstep true (druns true dp0 os) o) r = FIntact).
 Proof. exact C03.acked_stays_intact. Qed.
 Print Assumptions C03_acked_stays_intact.
 
 (* Reindex from the pack alone, right after a crash (no operation since): it succeeds, and nothing it presents is torn or
    half removed.  This is the proved part of "the pack files alone remain sufficient". *)
 Theorem C03_reindex_after_tail_crash_partial : forall os last s', let s := dstep true (druns true dp0 os) last in
+  C03.ops_ok os = true -> C03.op_ok last = true ->
   forallb (fun it => negb (C03.torn it)) (pack (druns true dp0 os)) = true ->
   (exists s', reindex true s = Some s') /\ (reindex true s = Some s' -> forall r, dfetch s' r <> FCorrupt).
 Proof. exact C03.reindex_after_tail_crash. Qed.
@@ -58,6 +61,14 @@ Theorem C03_reindex_total_refuted :
   dfetch s 1 = FIntact /\ dfetch s 3 = FIntact /\ reindex true s = None.
 Proof. exact C03.append_behind_torn_tail_breaks_reindex. Qed.
 Print Assumptions C03_reindex_total_refuted.
+
+(* [ops_ok]: the crash states of a removal are those of the order header-then-data (C03_source_order); in the other order a
+   crash leaves a record that Reindex presents as a blob of zeros *)
+Theorem C03_body_before_header_refuted :
+  let s := druns true dp0 [DReceive 1 10; DCrashRemove 1 (RmZeroOnly 10)] in
+  dfetch s 1 = FAbsent /\ match reindex true s with Some s' => dfetch s' 1 = FCorrupt | None => False end.
+Proof. exact C03.body_before_header_presents_zeroed_blob. Qed.
+Print Assumptions C03_body_before_header_refuted.
 
 (* the two repaired defects, as the model has them when the flags are the old ones *)
 Theorem C03_old_walk_refuted :
